@@ -1,7 +1,7 @@
 SPECIFICATION Spec
 CONSTANTS
   Emit = TRUE
-  MaxHist = 5
+  MaxHist = 4
   Deviations = TRUE
 VIEW View
 INVARIANT EmitAlphabet
